@@ -17,6 +17,7 @@ package main
 import (
 	"context"
 	"encoding/json"
+	"errors"
 	"fmt"
 	"math"
 	"math/big"
@@ -25,11 +26,13 @@ import (
 	"strconv"
 	"strings"
 
+	apierrors "k8s.io/apimachinery/pkg/api/errors"
 	"k8s.io/apimachinery/pkg/api/meta"
 	"k8s.io/apimachinery/pkg/apis/meta/v1/unstructured"
 	"k8s.io/apimachinery/pkg/runtime"
 	"k8s.io/apimachinery/pkg/runtime/schema"
 	dynamicfake "k8s.io/client-go/dynamic/fake"
+	clienttesting "k8s.io/client-go/testing"
 	"sigs.k8s.io/cli-utils/pkg/apply/cache"
 	"sigs.k8s.io/cli-utils/pkg/apply/mutator"
 	"sigs.k8s.io/cli-utils/pkg/jsonpath"
@@ -735,6 +738,9 @@ type storeJ struct {
 	// the cache holds an entry WITHOUT an object body under this status (what an earlier failed lookup — NotFound — or the
 	// status watcher leaves behind): never a reason not to ask the cluster
 	NilCached string `json:"nilCached,omitempty"`
+	// a GET of this object from the cluster fails with this API error (forbidden | throttled | timeout | srvtimeout | internal):
+	// the cluster's copy cannot be had; whatever the cache holds under a non-Current status is no substitute
+	GetFail string `json:"getFail,omitempty"`
 }
 
 type mutIn struct {
@@ -856,6 +862,31 @@ func runMut(in mutIn) (out map[string]any) {
 		}
 	}
 	client := dynamicfake.NewSimpleDynamicClientWithCustomListKinds(runtime.NewScheme(), listKinds, clusterObjs...)
+	for _, s := range in.Store {
+		if s.GetFail == "" {
+			continue
+		}
+		s := s
+		plural, _ := meta.UnsafeGuessKindToResource(schema.GroupVersionKind{Group: s.Group, Version: "v1", Kind: s.Kind})
+		client.PrependReactor("get", plural.Resource, func(a clienttesting.Action) (bool, runtime.Object, error) {
+			ga, ok := a.(clienttesting.GetAction)
+			if !ok || ga.GetName() != s.Name || a.GetNamespace() != s.NS || a.GetResource().Group != s.Group {
+				return false, nil, nil
+			}
+			gr := schema.GroupResource{Group: s.Group, Resource: plural.Resource}
+			switch s.GetFail {
+			case "forbidden":
+				return true, nil, apierrors.NewForbidden(gr, s.Name, errors.New("no"))
+			case "throttled":
+				return true, nil, apierrors.NewTooManyRequests("slow down", 1)
+			case "timeout":
+				return true, nil, apierrors.NewTimeoutError("request timed out", 1)
+			case "srvtimeout":
+				return true, nil, apierrors.NewServerTimeout(gr, "get", 1)
+			}
+			return true, nil, apierrors.NewInternalError(errors.New("boom"))
+		})
+	}
 	atm := &mutator.ApplyTimeMutator{Client: client, Mapper: mapper, ResourceCache: rc}
 	mutated, reason, merr := atm.Mutate(context.TODO(), target)
 	return map[string]any{
@@ -952,6 +983,9 @@ func genMutCase(rng *proto.Rng, region bool) mutIn {
 			srcTrees[d.name] = o
 		}
 		if d.mode != 4 {
+			if rng.Chance(1, 8) {
+				st.GetFail = proto.Pick(rng, []string{"forbidden", "throttled", "timeout", "srvtimeout", "internal"})
+			}
 			in.Store = append(in.Store, st)
 		}
 	}
